@@ -1,12 +1,138 @@
 import Driver.Util
-open Drv
+import Faithful.Lib.Parsers
+import Faithful.Lib.ParsersCbor
+open Drv Px
 
+/-! model side of the C12 line protocol: one answer line per op line, computed with the definitions
+`Faithful/Properties/C12.lean` is about (`Px.*` in `Faithful/Lib/Parsers.lean`, `Ledger.FastFixed` in ParsersCbor).
+
+Where the model decides success vs error the answer is exact (`ok …` / `err`); where the outcome is decided by
+third-party code (zstd, protobuf, bincode, the CBOR byte parsers, go-car's header) the comparable answer is `nopanic`
+(resp. `z` for a linked-log record whose framing was accepted).  A model that said `panic` would print `panic`. -/
 namespace DrvC12
 
-/-- model side of the C12 line protocol: one answer line per op line -/
+/-- hex → bytes without recursion on the input (files of megabytes) -/
+def unhexT (s : String) : Px.Bytes :=
+  if s = "-" then [] else Id.run do
+    let bs := s.toUTF8
+    let n := bs.size / 2
+    let mut out : Array UInt8 := Array.mkEmpty n
+    for i in [0:n] do
+      let a := hexVal (Char.ofNat (bs.get! (2 * i)).toNat)
+      let b := hexVal (Char.ofNat (bs.get! (2 * i + 1)).toNat)
+      out := out.push (UInt8.ofNat (a * 16 + b))
+    return out.toList
+
+def cls {α : Type} (r : Res α) : String := r.outcome.cls
+
+/-- `ok <detail>` / `err` / `panic` -/
+def showWith {α : Type} (r : Res α) (f : α → String) : String :=
+  match r.outcome with
+  | .ok a => let d := f a; if d.isEmpty then "ok" else "ok " ++ d
+  | .err _ => "err"
+  | .panic _ => "panic"
+
+/-- `cid=<n|x>`: go-cid's verdict, carried on the op line -/
+def cidArg (w : String) : Px.Bytes → Option Nat :=
+  let v := (w.drop 4).toString
+  if v = "x" then fun _ => none else fun _ => some v.toNat!
+
+def kindOfNat : Nat → Option Ledger.Kind
+  | 0 => some .transaction | 1 => some .entry | 2 => some .block | 3 => some .subset
+  | 4 => some .epoch | 5 => some .rewards | 6 => some .dataFrame | _ => none
+
+/-- the repaired CBOR decoders on whatever tree the byte parser of the model delivers -/
+def decAnswer (k : Nat) (b : Px.Bytes) : String :=
+  match kindOfNat k, Cbor.decodeFirst b with
+  | some kind, some (v, _) =>
+    (match Ledger.FastFixed.decode kind v with
+     | .panic _ => "panic"
+     | _ => "nopanic")
+  | _, _ => "nopanic"
+
+def answer (l : String) : String :=
+  match words l with
+  -- compactindexsized
+  | ["open-ci", f, _] => cls (ciOpen (unhexT f))
+  | ["load-ci", _] => "nopanic"
+  -- indexmeta
+  | ["meta", b, k] =>
+    (match (metaUnmarshal (unhexT b)).outcome with
+     | .ok m => showWith (metaGetUint64 m (unhexT k)) fun o => match o with | some v => toString v | none => "none"
+     | .err _ => "err"
+     | .panic _ => "panic")
+  -- indexes
+  | ["oas", b] => showWith (oasFromBytes (unhexT b)) fun (o, s) => s!"{o} {s}"
+  | ["oass", b] => showWith (oasSliceFromBytes (unhexT b)) fun l =>
+      match l.getLast? with
+      | some (o, s) => s!"{l.length} {o} {s}"
+      | none => "0 0 0"
+  | ["defmeta", b, c] =>
+    (match (metaUnmarshal (unhexT b)).outcome with
+     | .ok m => showWith (defaultMetadata m (c = "cast=ok")) toString
+     | .err _ => "err"
+     | .panic _ => "panic")
+  | "open-idx" :: _ => "nopanic"
+  -- bucketteer
+  | ["bkt", f, _] => cls (bkOpen (unhexT f))
+  -- blocktimeindex
+  | ["bt", f, "get", slot] =>
+    let data := unhexT f
+    if data.length > 38 ∧ data.length < 46 then "cut-capacity" else
+    (match (btUnmarshal data).outcome with
+     | .ok i => showWith (btGet i slot.toNat!) fun o => match o with | some v => toString v | none => "oor"
+     | .err _ => "err"
+     | .panic _ => "panic")
+  -- gsfa linked log
+  | ["ll", f, off, size] =>
+    let r := if size = "-" then llRead (unhexT f) off.toNat! else llFrame (unhexT f) off.toNat! size.toNat!
+    (match r.outcome with
+     | .ok _ => "z"
+     | .err _ => "err"
+     | .panic _ => "panic")
+  | ["unz", _] => "nopanic"
+  | ["oass3", b] => showWith (entriesFromBytes (unhexT b)) fun l =>
+      match l.getLast? with
+      | some e => s!"{l.length} {e.offset} {e.size} {e.slot} {e.flags}"
+      | none => "0"
+  | ["oas3", b] => showWith (entryFromBytes (unhexT b)) fun e => s!"{e.offset} {e.size} {e.slot} {e.flags}"
+  -- gsfa manifest
+  | ["mf", f] => showWith (mfOpen (unhexT f)) toString
+  -- carreader
+  | "car" :: _ => "nopanic"
+  | ["rsl", b] => showWith (readSectionLength (unhexT b)) fun (l, n) => s!"{l} {n}"
+  | ["rnid", b, c] => showWith (readNodeInfoWithData (cidArg c) (unhexT b)) fun (t, d) => s!"{t} {d}"
+  | ["rniw", b, c] => showWith (readNodeInfoWithoutData (cidArg c) (unhexT b)) toString
+  -- iplddecoders
+  | ["dec", k, b] => decAnswer k.toNat! (unhexT b)
+  | ["decany", b] =>
+    let data := unhexT b
+    (match (getKind data).outcome with
+     | .ok k => decAnswer k data
+     | .err _ => "nopanic"
+     | .panic _ => "panic")
+  -- solana-tx-meta-parsers, accum
+  | "txmeta" :: _ => "nopanic"
+  | "txmeta-proto" :: _ => "nopanic"
+  | "txmeta-latest" :: _ => "nopanic"
+  | "txmeta-oldest" :: _ => "nopanic"
+  | "accum" :: _ => "nopanic"
+  | "o2t" :: _ => "nopanic"
+  -- package main
+  | ["pnfs", sec, want, c] =>
+    let w := (want.drop 5).toString
+    showWith (parseNodeFromSection (cidArg c) (unhexT sec) (if w = "-" then none else some (unhexT w))) toString
+  | ["rfs", b] => showWith (readFirstSignature (unhexT b)) hex
+  | ["rns", f, off] => showWith (readNodeSize (unhexT f) off.toNat!) toString
+  | ["rnfo", f, off, len, c] => showWith (readNodeAt (cidArg c) (unhexT f) off.toNat! len.toNat!) toString
+  | "count-car" :: _ => "nopanic"
+  | "find" :: _ => "nopanic"
+  | "index-all" :: _ => "nopanic"
+  | _ => "bad-op"
+
 def run (lines : Array String) : IO Unit := do
   let out ← IO.getStdout
-  for _ in lines do
-    out.putStrLn "unimplemented"
+  for l in lines do
+    out.putStrLn (answer l)
 
 end DrvC12
